@@ -16,6 +16,9 @@ use wasm_bindgen::JsValue;
 
 use super::{debug::debug_log, errors::AxError};
 
+/// Upper bound for the size of the heap managed by the built-in brk handler
+const MAX_HEAP_SIZE: u64 = 1 << 30;
+
 #[wasm_bindgen]
 #[derive(Debug, Clone, Copy, PartialEq, Eq, Hash, Serialize, Deserialize)]
 #[repr(u16)]
@@ -314,9 +317,11 @@ impl Axecutor {
             // Otherwise, we resize the brk section to the new size.
             // A break below the start of the heap cannot be set; like Linux, we leave the
             // break where it is and return its current value
+            // The same goes for a break that would make the heap larger than MAX_HEAP_SIZE:
+            // Linux answers a request it has no memory for in the same way
             let new_length = match brk.checked_sub(ax.state.syscalls.brk_start) {
-                Some(new_length) => new_length,
-                None => {
+                Some(new_length) if new_length <= MAX_HEAP_SIZE => new_length,
+                _ => {
                     ax.reg_write_64(
                         RAX,
                         ax.state.syscalls.brk_start + ax.state.syscalls.brk_length,
